@@ -56,6 +56,12 @@ CLAIMED = {
             "symbolic execution of the real validation code with z3 on containers of symbolic shape / column identity (all call "
             "histories up to the bound against the acceptance rule), plus relational runs: history+malformed+input vs "
             "history+input and container-kind equivalence with complete-state equality"),
+    "C16": ("DESIGN.md 7/C16",
+            "label re-encodings modelled by opaque equality-only values (uninterpreted sort) vs symbolic integers; kernel stubs "
+            "of C01/C02 for the data-drift detectors; MD3 excluded (C19)",
+            "relational symbolic execution with z3: two copies of a detector in the same arbitrary state take label pairs of "
+            "different encodings with equal agreement (one inductive step, DDM/EDDM/STEPD), LFR 0/1 encodings, ADWINAccuracy "
+            "histories, and every detector with an arbitrary object as its unused argument vs None; complete-state equality"),
     "C13": ("DESIGN.md 7/C13",
             "members modelled as objects exposing drift_state; parameters on their documented domains; z3 LIA; CPython",
             "symbolic execution of election.py with z3: all vote patterns for n<=5/6 members with unbounded integer "
